@@ -829,3 +829,25 @@ def _c08_set_order(tier="quick", seed=0):
 
 _c08_before_sets = EXTRA_CHECKS["C08"]
 EXTRA_CHECKS["C08"] = (lambda tier="quick", seed=0: _c08_before_sets(tier, seed) + _c08_set_order(tier, seed))
+
+
+# ---- stale loop variables (the defect class of F25): in the modules that build objects from books, no variable of a finished loop is read later
+def _c16_stale(tier="quick", seed=0):
+    import ast
+
+    from pyvc import source
+
+    out, scanned = [], 0
+    for mod in ("parameters", "data", "programs", "model", "project", "excel", "scenarios"):
+        m = source.load(mod)
+        names = list(m.functions.keys()) + ["%s.%s" % (c, f.name) for c, (node, _) in m.classes.items() for f in node.body if isinstance(f, ast.FunctionDef)]
+        for n in sorted(names):
+            scanned += 1
+            out += [o for o in flow.loop_variables_not_read_after_loop("%s:%s" % (mod, n)) if o["status"] != "proved"]
+    out.append(dict(function="parameters,data,programs,model,project,excel,scenarios:all-functions", name="functions-scanned-for-stale-loop-variables:%d" % scanned, kind="structural", status="proved" if scanned > 100 else "refuted",
+                    seconds=0.0, backend="ast-analysis", note="a variable bound by a for loop is not read after that loop has finished"))
+    return out
+
+
+_c16_before_stale = EXTRA_CHECKS["C16"]
+EXTRA_CHECKS["C16"] = (lambda tier="quick", seed=0: _c16_before_stale(tier, seed) + _c16_stale(tier, seed))
